@@ -178,6 +178,33 @@ def t0_rules(chk, key):
     return P, base
 
 
+def failed_keyx_randomised(chk):
+    """server: a failed key exchange is replaced by DRBG output drawn unconditionally, under a control word derived from the verdict (shared with C08:
+    a draw that happens only on failure is a branch on the secret padding / point validity)"""
+    s = 'src/ssl/ssl_hs_server.c'
+    # server: failed key exchange must replace the premaster by random bytes (control word of br_ccopy derives from the verdict)
+    R = 'failed-keyx-randomised'
+    U = oblig.funit(s)
+    for fn, verdict in (('do_rsa_decrypt', 'x'), ('ecdh_common', 'ctl')):
+        F = U.func(fn)
+        cc = F.calls('br_ccopy')
+        gen = F.calls('br_hmac_drbg_generate')
+        cm = F.calls('br_ssl_engine_compute_master')
+        inst = '%s: br_ccopy(%s ^ 1, secret, random) between the DRBG draw and compute_master' % (fn, verdict)
+        okk = len(cc) == 1 and len(gen) == 1 and len(cm) == 1 and F.dominates(gen[0]['id'], cc[0]['id']) and F.dominates(cc[0]['id'], cm[0]['id'])
+        det = ''
+        if okk:
+            ctl = F.strip_casts(cc[0]['ops'][0])
+            okk = ctl['k'] == 'i' and F.insts[ctl['v']]['op'] == 'xor' and any(o == {'k': 'c', 'v': 1, 'w': 32} for o in F.insts[ctl['v']]['ops'])
+            det = 'control word is %s' % (F.insts[ctl['v']]['op'] if ctl['k'] == 'i' else ctl)
+            # the buffer handed to compute_master is the br_ccopy destination, the source is the DRBG output
+            okk = okk and F.addr_of(cc[0]['ops'][1])[0] == F.addr_of(cm[0]['ops'][2])[0] and F.addr_of(cc[0]['ops'][2])[0] == F.addr_of(gen[0]['ops'][1])[0]
+        if okk:
+            chk.ok(R, inst, F.where(cc[0]), det)
+        else:
+            chk.violation(R, inst, F.where(), 'shape changed: %d ccopy / %d drbg / %d compute_master; %s' % (len(cc), len(gen), len(cm), det), key='%s %s' % (R, fn))
+
+
 def c_helpers(chk):
     R = 'handshake-helper-rejects'
     c = 'src/ssl/ssl_hs_client.c'
@@ -204,27 +231,8 @@ def c_helpers(chk):
            'ECDSA verification failure of CertificateVerify', rule=R),
     ]
     oblig.run_obligations(chk, obs)
-    # server: failed key exchange must replace the premaster by random bytes (control word of br_ccopy derives from the verdict)
-    R = 'failed-keyx-randomised'
+    failed_keyx_randomised(chk)
     U = oblig.funit(s)
-    for fn, verdict in (('do_rsa_decrypt', 'x'), ('ecdh_common', 'ctl')):
-        F = U.func(fn)
-        cc = F.calls('br_ccopy')
-        gen = F.calls('br_hmac_drbg_generate')
-        cm = F.calls('br_ssl_engine_compute_master')
-        inst = '%s: br_ccopy(%s ^ 1, secret, random) between the DRBG draw and compute_master' % (fn, verdict)
-        okk = len(cc) == 1 and len(gen) == 1 and len(cm) == 1 and F.dominates(gen[0]['id'], cc[0]['id']) and F.dominates(cc[0]['id'], cm[0]['id'])
-        det = ''
-        if okk:
-            ctl = F.strip_casts(cc[0]['ops'][0])
-            okk = ctl['k'] == 'i' and F.insts[ctl['v']]['op'] == 'xor' and any(o == {'k': 'c', 'v': 1, 'w': 32} for o in F.insts[ctl['v']]['ops'])
-            det = 'control word is %s' % (F.insts[ctl['v']]['op'] if ctl['k'] == 'i' else ctl)
-            # the buffer handed to compute_master is the br_ccopy destination, the source is the DRBG output
-            okk = okk and F.addr_of(cc[0]['ops'][1])[0] == F.addr_of(cm[0]['ops'][2])[0] and F.addr_of(cc[0]['ops'][2])[0] == F.addr_of(gen[0]['ops'][1])[0]
-        if okk:
-            chk.ok(R, inst, F.where(cc[0]), det)
-        else:
-            chk.violation(R, inst, F.where(), 'shape changed: %d ccopy / %d drbg / %d compute_master; %s' % (len(cc), len(gen), len(cm), det), key='%s %s' % (R, fn))
     # anti-rollback: the version written into the decrypted premaster is the client's offered maximum
     F = U.func('do_rsa_decrypt')
     L = irf.Layouts(U.unit)
@@ -478,6 +486,9 @@ def run(tier):
     key_usage_rules(chk)
     resumption_rules(chk)
     session_invalidation(chk)
+    from . import c11 as _c11
+    oblig.run_obligations(chk, [o for o in _c11.obligations() if 'ecdsa' in o.func])
+    _c11.rs_nonzero(chk)
     hash_compare_shape(chk, 'src/ssl/ssl_hs_client.c', 'verify_SKE_sig')
     hash_compare_shape(chk, 'src/ssl/ssl_hs_server.c', 'verify_CV_sig')
     chk.floor('rule instances', len(chk.obls), 30)
